@@ -334,7 +334,8 @@ func Parse(q string) (*Query, error) {
 		return nil, err
 	}
 	pc := parserContext{
-		referenceTime: time.Now(),
+		// without the monotonic clock reading, the difference of two reference times has to be the one of their wall clock times
+		referenceTime: time.Now().Round(0),
 		timezone:      time.Local,
 	}
 	cond, err := root.QueryConditions(&pc)
